@@ -30,8 +30,9 @@ def read_elem(t, view, i):
     raise ValueError("no elements")
 
 
-def run_ops(t, view, ops, out, prefix):
-    for k, op in enumerate(ops):
+def one_op(t, view, k, op, out, prefix):
+    """run one op; returns the status string that was appended"""
+    if True:
         o = op[0]
         if o == 'read':
             out.append('%d.%s=%s' % (k, prefix, status(lambda: to_val(t, view))))
@@ -61,6 +62,8 @@ def run_ops(t, view, ops, out, prefix):
             out.append('%d.%s=%s' % (k, prefix, status(lambda: to_val(t, view, 'roiter'))))
         elif o == 'nav':
             out.append('%d.%s=%s' % (k, prefix, status(lambda: hexr(view.get_backing().getter(int(op[1]))))))
+        elif o == 'vbl':
+            out.append('%d.%s=%s' % (k, prefix, status(lambda: view.value_byte_length())))
         elif o == 'len':
             out.append('%d.%s=%s' % (k, prefix, status(lambda: len(view))))
         elif o == 'bytes':
@@ -72,6 +75,18 @@ def run_ops(t, view, ops, out, prefix):
                 apply_op(t, view, op)
                 return view.hash_tree_root().hex()
             out.append('%d.%s=%s' % (k, prefix, status(mut)))
+
+
+    return out[-1].split('=', 1)[1]
+
+
+def run_ops(t, view, ops, out, prefix):
+    for k, op in enumerate(ops):
+        one_op(t, view, k, op, out, prefix)
+
+
+def is_atomic_mut(op):
+    return op[0] in ('set', 'app', 'pop', 'chg', 'cpy', 'setf', 'sub')
 
 
 def run_partial(t, v, positions, ops):
@@ -90,10 +105,15 @@ def run_partial(t, v, positions, ops):
             done.append('0')
     out = ['p.summ=%s' % ''.join(done), 'p.root=%s' % hexr(b), 'p.croot=%s' % hexr(x.get_backing())]
     y = T.view_from_backing(b)
-    run_ops(t, y, ops, out, 'p')
-    # the same ops on the complete tree
+    # the same ops on the complete tree, in lockstep: a mutation (other than a slice assignment) that fails on
+    # the partial tree is not applied to the complete one either
     z = T.view_from_backing(x.get_backing())
-    run_ops(t, z, ops, out, 'c')
+    for k, op in enumerate(ops):
+        r = one_op(t, y, k, op, out, 'p')
+        if is_atomic_mut(op) and not r.startswith('ok'):
+            out.append('%d.c=skip' % k)
+        else:
+            one_op(t, z, k, op, out, 'c')
     return ';'.join(out)
 
 
